@@ -554,6 +554,7 @@ def _ratio_differs(g, pair1, pair2, seed, n_models):
     rng = _r.Random(seed)
     (o1, c1), (o2, c2) = pair1, pair2
     j1, j2 = K.sort_event(_union(o1, c1)), K.sort_event(_union(o2, c2))
+    z1, z2 = _collides(o1, c1), _collides(o2, c2)   # an outcome and a condition on one variable with two values: P = 0
     for k in range(n_models):
         m = S.Fscm(g["nodes"], g["di"], g["bi"], rng, max_card=2 if k < n_models // 2 else 3)
         nu = S.rand_nu(m, rng)
@@ -562,11 +563,19 @@ def _ratio_differs(g, pair1, pair2, seed, n_models):
             d2 = m.prob(S.event_items(c2, nu)) if c2 else 1
             if d1 == 0 or d2 == 0:
                 continue
-            if m.prob(S.event_items(j1, nu)) / d1 != m.prob(S.event_items(j2, nu)) / d2:
+            r1 = 0 if z1 else m.prob(S.event_items(j1, nu)) / d1
+            r2 = 0 if z2 else m.prob(S.event_items(j2, nu)) / d2
+            if r1 != r2:
                 return True
         except KeyError:
             return False
     return False
+
+
+def _collides(o, c):
+    """does an outcome conjunct name the same counterfactual variable as a condition conjunct with a DIFFERENT value?"""
+    cv = {C.enc(var): val for var, val in c}
+    return any(C.enc(var) in cv and cv[C.enc(var)] != val for var, val in o)
 
 
 def _union(o, c):
@@ -641,12 +650,12 @@ def _exchange_kind(g, before, after, seed, n_models):
     stars = {s_ for (v2, _), g_ in zip(o2, gained) if g_ for n, s_ in v2[4] if int(n) == name}
     if gone[0][1] in ("m", "p"):
         stars.add(gone[0][1])
-    for st in sorted(stars, key=lambda x: x != gone[0][1]):
-        flip = "m" if st == "p" else "p"
-        if any(gained):
-            o2f = [[with_sub(v2, flip), val] if g_ else [v2, val] for (v2, val), g_ in zip(o2, gained)]
-            if len({C.enc(v) for v, _ in o2f}) == len(o2f) and not _ratio_differs(g, before, (o2f, c2), seed, n_models):
-                return "exchange:polarity"
+    # The 'conditions' explanation is an IDENTITY of the calculus (rule 2 with every remaining condition re-subscripted), the
+    # 'polarity' explanation a numerical coincidence test: the former is tried first for every star, and the latter must
+    # survive five times as many models (seed 3 of the quick tier produced Z->X->Y->W, P(Y_{x}, Y_{x'} | Z, X), a plain
+    # exchange:conditions input on which the flipped star happened to agree on all 8 models; with 40 it does not).
+    order = sorted(stars, key=lambda x: x != gone[0][1])
+    for st in order:
         # (a remaining condition that already carries a subscript for the exchanged variable lives in a world where that
         # variable is set: it keeps it)
         c2s = [[with_sub(v, st), val] if int(v[1]) != name and not any(int(n_) == name for n_, _ in v[4]) else [v, val]
@@ -654,6 +663,12 @@ def _exchange_kind(g, before, after, seed, n_models):
         if c2s != c2 and len({C.enc(v) for v, _ in c2s}) == len(c2s) and \
                 not _ratio_differs(g, before, (o2, c2s), seed, n_models):
             return "exchange:conditions"
+    for st in order:
+        flip = "m" if st == "p" else "p"
+        if any(gained):
+            o2f = [[with_sub(v2, flip), val] if g_ else [v2, val] for (v2, val), g_ in zip(o2, gained)]
+            if len({C.enc(v) for v, _ in o2f}) == len(o2f) and not _ratio_differs(g, before, (o2f, c2), seed, 5 * n_models):
+                return "exchange:polarity"
     return "exchange:separation"
 
 
@@ -671,6 +686,10 @@ def _explain(case, strategy, n_models):
     seed = case.get("seed", 0)
     in_dom = lambda pr: all(S.consistent_subscripts(e) for e in pr)   # noqa: E731
     for i, lv in enumerate(levels):
+        if i >= 1 and _collides(*lv) and not _collides(*levels[i - 1]):
+            # the exchange of level i-1 re-subscripted an outcome to the key of a REMAINING CONDITION that demands another value:
+            # P(outcomes, conditions) = 0, but `outcomes | conditions` (a dict union) silently keeps the condition's value only
+            return "exchange:outcome-collides-with-condition", {"level": i - 1, "before": levels[i - 1], "after": lv}
         if i < len(reassoc):
             if in_dom(lv) and in_dom(reassoc[i]) and _ratio_differs(g, lv, reassoc[i], seed, n_models):
                 # the listed finding is about keys that the counterfactual graph MERGED (several worlds); a re-association that
@@ -1035,7 +1054,7 @@ def _same_wrong_answer_as_model(case, r):
 
 
 COARSE = ("F11", "normalisation:subscript", "inherited", "reassociation", "exchange:polarity", "exchange:conditions", "exchange:separation",
-          "exchange:outcomes-collapse",
+          "exchange:outcomes-collapse", "exchange:outcome-collides-with-condition",
           "conditional:shared-base", "conditional:condition-in-outcome-world")
 
 
